@@ -26,8 +26,11 @@ LEVEL_NOTE = ("theorems are for EVERY wcwidth function with values 0/1/2 on the 
               "one padding space formatted like the double-width character that would straddle the boundary). Latitude left by "
               "the statement (the property's own observation is 'up to placement of zero-width characters'): a zero-width "
               "character following a full line may stay on it or open the next line - the code keeps it only when it is in the "
-              "same run; Lines allows both, the oracle compares lines per column-occupying character and the full sequence "
-              "after removing the padding. Trusted: Lean kernel + propext/Classical.choice/Quot.sound, the hand-written model, "
+              "same run; Lines allows both - in particular Lines accepts a LAST line made only of zero-width characters "
+              "(red('ab')+blue(U+0301) at columns 2 gives ['ab', U+0301], one run gives one line): this is inside that latitude; "
+              "the oracle accepts such a line only as the last one after a full line (or as the only line), counts these cases "
+              "(distribution key last-line-zero-width-only), and otherwise compares lines per column-occupying character and "
+              "the full sequence after removing the padding. Trusted: Lean kernel + propext/Classical.choice/Quot.sound, the hand-written model, "
               "the wire codec; cwcwidth is a parameter whose values are read live per run")
 ASSUMPTIONS = ["columns >= 2 and characters of width 0, 1 or 2 (the library raises ValueError otherwise; tie-checked only)",
                "lines are compared with the reference wrap per character up to the placement of zero-width characters "
@@ -183,6 +186,10 @@ def canon(reply):
 
 
 # ------------------------------------------------------------------------------------------------ oracle
+import collections
+STATS = collections.Counter()
+
+
 def reference_wrap(cs, columns):
     """greedy wrap written from the property text, on the characters that occupy columns:
     -> list of (line cells, padded?) where a padded line ends with a space formatted like the double-width character
@@ -227,8 +234,19 @@ def _oracle(c):
     ref = reference_wrap(cs, columns)
     got = [cells(l) for l in lines]
     got_cols = [[x for x in g if wc(x[0]) != 0] for g in got]
-    while got_cols and not got_cols[-1]:
-        got_cols.pop()     # a last line holding only zero-width characters occupies no column
+    # Placement of zero-width characters is the latitude the property itself leaves ("compared per character up to
+    # placement of zero-width characters"): ONE line without any column-occupying character is accepted, only as the last
+    # line and only when it is the only line or follows a line that is exactly `columns` wide (zero-width characters that
+    # arrive, in a new run, after a full line open a line of their own; in one run they stay on the full line). Such cases
+    # are counted ("last-line-zero-width-only" in the distribution), never dropped silently.
+    for k, g in enumerate(got_cols):
+        if not g:
+            if k != len(got_cols) - 1:
+                return "line %d holds only zero-width characters but is not the last line" % k
+            if k > 0 and lines[k - 1].width != columns:
+                return "last line holds only zero-width characters although line %d is not full" % (k - 1)
+            STATS["last-line-zero-width-only"] += 1
+            got_cols = got_cols[:-1]
     if got_cols != [r[0] for r in ref]:
         return "lines differ from the greedy wrap: got %r expected %r" % (got_cols, [r[0] for r in ref])
     # nothing lost, reordered or restyled; the only additions are the padding spaces
@@ -271,6 +289,13 @@ def check(ctx):
         ctx.count(c, nontrivial=nontrivial(c), tag="extra-" + c["op"])
         if w:
             ctx.violation(w, c, footprint(c, w))
+    flush_stats(ctx)
+
+
+def flush_stats(ctx):
+    for k, v in STATS.items():
+        ctx.dist[k] += v
+    STATS.clear()
 
 
 def search(ctx):
